@@ -374,6 +374,11 @@ def check_c02(chk, rng):
     # (the model itself and its named faults are checked by C15)
     import abort_model
     abort_model.run(chk, rng, own=("C02.",), nsim=100 if chk.tier == "quick" else 1500, models=False)
+    # level B of the simulation run loop + the root schedule table (SimExecutor.tla: model-checked with its named faults; its
+    # behaviours replayed, the real cycles / evaluated nodes / cached next time / schedule table compared per cycle; SimTrace.tla
+    # - level A - judges the requests read from the real trace against the real cycles)
+    import sim_model
+    sim_model.run(chk, rng)
     chk.coverage["rule"] = ("random programs rich in wake-ups (scripted sources scheduling one-at-a-time or all at start, timers, "
                             "tagged delays that replace their pending time, inside nested children at depth 1-2), start in {1,2,3}, end before / "
                             "after the last request; distinct = distinct scenario text")
